@@ -1,5 +1,6 @@
 SPECIFICATION TSpec
 CONSTANTS
+ TraceDoc <- LoadedDoc
  Variants <- TVariants
  NBk <- TNBk
  Inits <- TInits
